@@ -30,7 +30,7 @@ func init() {
 	// ---------------------------------------------------------------- single/exhaustive
 	facet.Register(facet.F[Case]{
 		Prop: "C10", Name: "single/exhaustive",
-		Rule: "bounded-exhaustive: one parameter under test (type string / dynamic / list(string); all 16 flag combinations; positional, variadic-only, or variadic after one plain positional parameter) x every slot class representative x every Type behaviour x every Impl behaviour x {no refinement, refinement}; Call, ReturnTypeForValues, ReturnType and Unpredictable are all judged; every case counts",
+		Rule:       "bounded-exhaustive: one parameter under test (type string / dynamic / list(string); all 16 flag combinations; positional, variadic-only, or variadic after one plain positional parameter) x every slot class representative x every Type behaviour x every Impl behaviour x {no refinement, refinement}; Call, ReturnTypeForValues, ReturnType and Unpredictable are all judged; every case counts",
 		Exhaustive: exhaustiveCases,
 		Check: func(c *facet.Ctx, in Case) error {
 			inf, err := runCase(c, in, everything)
